@@ -774,6 +774,7 @@ var MergeFunc = function.New(&function.Spec{
 
 		// collect the possible object attrs
 		attrs := map[string]cty.Type{}
+		anyDynamic := false
 
 		first := cty.NilType
 		matching := true
@@ -781,9 +782,12 @@ var MergeFunc = function.New(&function.Spec{
 		allNull := true
 		for i, arg := range args {
 			ty := arg.Type()
-			// any dynamic args mean we can't compute a type
+			// any dynamic args mean we can't compute a type, but we must
+			// still validate the remaining arguments because a null argument
+			// of unknown type does not prevent the implementation from running
 			if ty.Equals(cty.DynamicPseudoType) {
-				return cty.DynamicPseudoType, nil
+				anyDynamic = true
+				continue
 			}
 
 			// check for invalid arguments
@@ -827,6 +831,10 @@ var MergeFunc = function.New(&function.Spec{
 			if !ty.Equals(first) && matching {
 				matching = false
 			}
+		}
+
+		if anyDynamic {
+			return cty.DynamicPseudoType, nil
 		}
 
 		// the types all match, so use the first argument type
